@@ -1,6 +1,7 @@
 package main
 
 import (
+	"bytes"
 	"fmt"
 	"net"
 	"strings"
@@ -368,9 +369,50 @@ type playClient struct {
 	cRTP, cRTCP int // client ports
 }
 
+// injConn: the client's UDP socket, through the public Client.ListenPacket hook. A datagram that starts with
+// injMagic is a FORGED one: the bytes after the magic name the source address (any length, any form: 4 bytes,
+// 16 bytes mapped / not mapped, malformed) and port the listener is to be told it came from. This reaches every
+// source-address shape a dual-stack socket can report, which the loopback interface alone cannot produce
+// (e.g. an IPv6 source whose low 32 bits are the server's IPv4 address).
+var injMagic = []byte("\x00VERIFINJ")
+
+type injConn struct{ *net.UDPConn }
+
+func (c *injConn) ReadFrom(p []byte) (int, net.Addr, error) {
+	n, addr, err := c.UDPConn.ReadFrom(p)
+	if err != nil || n < len(injMagic)+3 || !bytes.HasPrefix(p[:n], injMagic) {
+		return n, addr, err
+	}
+	q := p[len(injMagic):n]
+	il := int(q[0])
+	if len(q) < 1+il+2 {
+		return n, addr, err
+	}
+	ip := append(net.IP(nil), q[1:1+il]...)
+	port := int(q[1+il])<<8 | int(q[2+il])
+	payload := append([]byte(nil), q[3+il:]...)
+	copy(p, payload)
+	return len(payload), &net.UDPAddr{IP: ip, Port: port}, nil
+}
+
+func forge(ip []byte, port int, payload []byte) []byte {
+	b := append([]byte(nil), injMagic...)
+	b = append(b, byte(len(ip)))
+	b = append(b, ip...)
+	b = append(b, byte(port>>8), byte(port))
+	return append(b, payload...)
+}
+
 func startClient(h *handler, anyPort bool, readTimeout, checkPeriod time.Duration) (*playClient, error) {
 	pc := &playClient{}
-	c := &gortsplib.Client{Scheme: "rtsp", Host: h.addr(), Protocol: protoPtr(gortsplib.ProtocolUDP), AnyPortEnable: anyPort, ReadTimeout: readTimeout}
+	c := &gortsplib.Client{Scheme: "rtsp", Host: h.addr(), Protocol: protoPtr(gortsplib.ProtocolUDP), AnyPortEnable: anyPort, ReadTimeout: readTimeout,
+		ListenPacket: func(network, address string) (net.PacketConn, error) {
+			x, err := net.ListenPacket(network, address)
+			if err != nil {
+				return nil, err
+			}
+			return &injConn{x.(*net.UDPConn)}, nil
+		}}
 	c.VerifSMSetPeriods(checkPeriod, time.Hour, time.Hour)
 	if err := c.Start(); err != nil {
 		return nil, err
@@ -522,13 +564,44 @@ func clientScenario(ctx *hx.Ctx, anyPort bool, intruderFirst bool, nDgrams int, 
 			}
 			record(srvIP, srvPort, true)
 		}
+		// forged source addresses (see injConn): the server's address in its 16-byte mapped form is the SAME peer;
+		// everything else is somebody else, however similar the bytes look
+		mapped := func(b ...byte) []byte { return append(append([]byte(nil), v4prefix...), b...) }
+		forged := []struct {
+			ip   []byte
+			port int
+		}{
+			{mapped(127, 0, 0, 1), srvPort},
+			{mapped(127, 0, 0, 1), srvPort + 2},
+			{mapped(127, 0, 0, 2), srvPort},
+			{append([]byte{0xfd, 0, 0, 0, 0, 0, 0, 0, 0, 0, 0, 0}, 127, 0, 0, 1), srvPort},    // fd00::7f00:1
+			{append([]byte{0xfe, 0x80, 0, 0, 0, 0, 0, 0, 0, 0, 0, 0}, 127, 0, 0, 1), srvPort}, // fe80::7f00:1
+			{append(make([]byte, 12), 127, 0, 0, 1), srvPort},                                 // ::127.0.0.1 (IPv4-compatible, deprecated)
+			{append([]byte{0, 0, 0, 0, 0, 0, 0, 0, 0, 0, 0xff, 0xfe}, 127, 0, 0, 1), srvPort}, // almost mapped
+			{[]byte{0x20, 1, 0xd, 0xb8, 0, 0, 0, 0, 0, 0, 0, 0, 0, 0, 0, 1}, srvPort},         // 2001:db8::1
+			{[]byte{127, 0, 0, 1, 0}, srvPort},                                                // malformed: 5 bytes
+			{[]byte{}, srvPort},                                                               // malformed: empty
+		}
 		for i := 0; i < nDgrams; i++ {
 			src := intr[r.Intn(len(intr))]
 			fromServer := r.Intn(4) == 0
+			forgedIdx := -1
+			if !fromServer && r.Intn(3) == 0 {
+				forgedIdx = r.Intn(len(forged))
+			}
 			before := inb()
 			var n, sn int
 			if fromServer {
 				n = serverSend(toRTP, 100)
+			} else if forgedIdx >= 0 {
+				var b []byte
+				if toRTP {
+					b = sameIP.rtp(100)
+				} else {
+					b = rtcpPacket(0)
+				}
+				sameIP.sock.WriteToUDP(forge(forged[forgedIdx].ip, forged[forgedIdx].port, b), target)
+				n = len(b)
 			} else {
 				n = sendFrom(src, 100)
 			}
@@ -550,6 +623,9 @@ func clientScenario(ctx *hx.Ctx, anyPort bool, intruderFirst bool, nDgrams int, 
 			ip, port := src.ip, src.port
 			if fromServer {
 				ip, port = srvIP, srvPort
+			}
+			if forgedIdx >= 0 {
+				ip, port = net.IP(forged[forgedIdx].ip), forged[forgedIdx].port
 			}
 			record(ip, port, accepted)
 			if pinnedIntruder {
